@@ -187,9 +187,55 @@ class Facts:
             for r in j["instances"]["roots"]:
                 self.roots.append(r)
                 self.crate_of_root[r] = c
+        self.synth_closures = self._synthesize_closure_instances()
         for c, floor in FN_FLOORS.items():
             if self.counts.get(c, 0) < floor:
                 raise FactError("crate %s: %d MIR bodies < floor %d" % (c, self.counts.get(c, 0), floor))
+
+    def _synthesize_closure_instances(self):
+        """A workspace closure handed to a deep std combinator (`array::from_fn`, `Iterator::all / position / map`)
+        may have no node in the instance graph: the driver's walk through the library body does not always arrive
+        at the `call_once` of the closure.  Such a closure gets a synthetic node (its calls resolved by definition,
+        to every instance of the callee) and an edge from every instance of the function that constructs it, so
+        reachability, recursion and who-may-call rules see through it."""
+        have = set(n["def"] for n in self.inst.values())
+        by_def = {}
+        for k, n in self.inst.items():
+            by_def.setdefault(n["def"], []).append(k)
+        made = []
+        todo = [f for f in self.fns.values() if f.kind == "Closure" and f.crate not in ("ext", "promoted") and f.id not in have]
+        for f in sorted(todo, key=lambda x: x.id):
+            key = f.id + "<synthetic>"
+            calls = []
+            for bi, b in enumerate(f.blocks):
+                t = b["term"]
+                if t["k"] not in ("call", "tailcall"):
+                    continue
+                c = t.get("callee", {})
+                d = c.get("res") or c.get("def") or ""
+                tos = by_def.get(d, [])
+                if len(tos) == 1:
+                    calls.append({"bb": bi, "def": c.get("def", d), "to": tos[0], "to_def": d, "via": "synthetic", "walked": bool(self.inst[tos[0]].get("has_mir"))})
+                else:
+                    calls.append({"bb": bi, "def": c.get("def", d), "to_def": d, "via": "synthetic", "walked": False})
+                    for i, to in enumerate(tos):
+                        calls.append({"bb": -(1000 * (bi + 1) + i), "def": c.get("def", d), "to": to, "to_def": d, "via": "synthetic-any", "walked": False})
+            self.inst[key] = {"key": key, "def": f.id, "local": True, "crate": f.crate, "has_mir": True, "synthetic": True, "calls": calls}
+            by_def.setdefault(f.id, []).append(key)
+            made.append(f.id)
+        # construction edges (also for the closures made in this pass by other synthetic closures)
+        made_set = set(made)
+        if made_set:
+            for f in self.fns.values():
+                if f.crate in ("ext", "promoted"):
+                    continue
+                for bi, b in enumerate(f.blocks):
+                    for st in b["stmts"]:
+                        if st["k"] == "assign" and st["rv"]["k"] == "agg" and st["rv"].get("closure") in made_set:
+                            cid = st["rv"]["closure"]
+                            for k in by_def.get(f.id, []):
+                                self.inst[k]["calls"].append({"bb": -(bi + 1), "def": cid, "to": cid + "<synthetic>", "to_def": cid, "via": "closure-construction", "walked": True})
+        return made
 
     def fn(self, id):
         f = self.fns.get(id)
